@@ -36,15 +36,33 @@ func init() {
 // case then costs minutes, not hours.
 func ioMarker() string { return fmt.Sprintf("%s/io-blocked-%d", c13TmpDir(), os.Getppid()) }
 
-// ioShortened: a request of this run was already found blocked (marker written during the life of the
-// parent process — pids are reused), so the run has failed and later requests wait only briefly
+// parentStart: the start time of the parent process (field 22 of /proc/<ppid>/stat, clock ticks since
+// boot) — with the pid it identifies the check run; pids are reused, start times of a reused pid differ
+func parentStart() string {
+	b, err := os.ReadFile(fmt.Sprintf("/proc/%d/stat", os.Getppid()))
+	if err != nil {
+		return ""
+	}
+	rest := string(b)
+	if i := strings.LastIndex(rest, ")"); i >= 0 { // the command name may contain blanks and parentheses
+		rest = rest[i+1:]
+	}
+	f := strings.Fields(rest)
+	if len(f) < 20 {
+		return ""
+	}
+	return f[19] // field 22 of the whole line = 20th after the command name
+}
+
+// ioShortened: a request of THIS run (same parent pid and parent start time) was already found blocked, so
+// the run has failed and later requests wait only briefly
 func ioShortened() bool {
-	st, err := os.Stat(ioMarker())
+	b, err := os.ReadFile(ioMarker())
 	if err != nil {
 		return false
 	}
-	ps, err := os.Stat(fmt.Sprintf("/proc/%d", os.Getppid()))
-	return err == nil && st.ModTime().After(ps.ModTime())
+	ps := parentStart()
+	return ps != "" && strings.HasPrefix(string(b), ps+"\n")
 }
 
 func ioDeadline(ms int) time.Duration {
@@ -75,7 +93,7 @@ func ioBlocked(files []string, reason string, detail ...string) {
 			}
 		}
 	}
-	_ = os.WriteFile(ioMarker(), []byte(reason+"\n"), 0o644)
+	_ = os.WriteFile(ioMarker(), []byte(parentStart()+"\n"+reason+"\n"), 0o644)
 	runner.TimeoutNow(append([]string{kind, reason}, detail...)...)
 }
 
@@ -132,6 +150,52 @@ func c13TempFile(content []byte, gz int) (string, error) {
 // beyond 64 KiB, letters that do not occur in generated sequences' first positions
 var c13OtherText = ">other one\n" + strings.Repeat("XYZXYZXYZW", 7000) + "\n>other two\nXXXXXXXXXXXXXXXXXXXXXXXX\nYYYY\n>o3\n\n"
 
+// what the parsers must make of c13OtherText
+var c13OtherWant = []fasta.Fasta{{Name: "other one", Sequence: strings.Repeat("XYZXYZXYZW", 7000)},
+	{Name: "other two", Sequence: "XXXXXXXXXXXXXXXXXXXXXXXXYYYY"}, {Name: "o3", Sequence: ""}}
+
+func c13SameRecs(a, b []fasta.Fasta) bool {
+	if len(a) != len(b) {
+		return false
+	}
+	for i := range a {
+		if a[i] != b[i] {
+			return false
+		}
+	}
+	return true
+}
+
+// c13ParseConcurrently: the judged text is parsed while OTHER parsers run in the same process — two more
+// Parse calls on the same text and one on c13OtherText, each in its own goroutine. All results are judged:
+// the copies must agree, the other text must come out as c13OtherWant (a parser with package-level state
+// mixes the inputs). The first copy is reported.
+func c13ParseConcurrently(text []byte) ([]fasta.Fasta, error) {
+	var wg sync.WaitGroup
+	copies := make([][]fasta.Fasta, 3)
+	var other []fasta.Fasta
+	for i := range copies {
+		wg.Add(1)
+		go func(i int) {
+			defer wg.Done()
+			copies[i] = fasta.Parse(bytes.NewReader(text))
+		}(i)
+	}
+	wg.Add(1)
+	go func() {
+		defer wg.Done()
+		other = fasta.Parse(strings.NewReader(c13OtherText))
+	}()
+	wg.Wait()
+	if !c13SameRecs(copies[0], copies[1]) || !c13SameRecs(copies[0], copies[2]) {
+		return nil, fmt.Errorf("concurrent Parse calls on the same text returned different records")
+	}
+	if !c13SameRecs(other, c13OtherWant) {
+		return nil, fmt.Errorf("a Parse call running concurrently on another text returned wrong records (%d records)", len(other))
+	}
+	return copies[0], nil
+}
+
 // c13OtherList derives a different list of the same shape and size (names and sequences of the same
 // lengths, every letter replaced), so that a recycled buffer of Build would be overwritten in place
 func c13OtherList(fs []fasta.Fasta) []fasta.Fasta {
@@ -168,6 +232,14 @@ func c13ReadVia(mode string, text []byte) ([]fasta.Fasta, error) {
 		// aliases a reused buffer would change under our feet), and reported afterwards
 		got := fasta.Parse(bytes.NewReader(text))
 		_ = fasta.Parse(strings.NewReader(c13OtherText))
+		// ... and the same text again with other parsers running at the same time
+		conc, err := c13ParseConcurrently(text)
+		if err != nil {
+			return nil, err
+		}
+		if !c13SameRecs(got, conc) {
+			return nil, fmt.Errorf("Parse alone and Parse next to other parsers returned different records")
+		}
 		return got, nil
 	case "file", "gz", "gz2":
 		path, err := c13TempFile(text, c13GzKind(mode))
@@ -307,6 +379,18 @@ func c13Stream(args []string) ([]string, error) {
 	ch := make(chan fasta.Fasta, capacity)
 	done := make(chan interface{}, 1)
 	var tmpFiles []string
+	// ANOTHER streaming parser runs in the same process while the judged one does, on another text and
+	// another channel, drained by its own consumer; its records are checked at the end
+	otherCh := make(chan fasta.Fasta, capacity%3)
+	otherGot := make(chan []fasta.Fasta, 1)
+	go fasta.ParseConcurrent(strings.NewReader(c13OtherText), otherCh)
+	go func() {
+		var rs []fasta.Fasta
+		for f := range otherCh {
+			rs = append(rs, f)
+		}
+		otherGot <- rs
+	}()
 	switch args[0] {
 	case "mem":
 		go func() {
@@ -394,6 +478,7 @@ func c13Stream(args []string) ([]string, error) {
 	}
 	var got []fasta.Fasta
 	deadline := time.After(ioDeadline(20000) + time.Duration(longStall)*time.Millisecond)
+	doneCh, producerDone := done, false
 recvLoop:
 	for {
 		pause()
@@ -403,17 +488,23 @@ recvLoop:
 				break recvLoop
 			}
 			got = append(got, f)
-		case <-deadline:
-			// the channel was neither fed nor closed; a producer that panicked is reported as such
-			select {
-			case p := <-done:
-				if p != nil {
-					return nil, fmt.Errorf("producer goroutine panicked (channel never closed): %v", p)
-				}
-			default:
+		case p := <-doneCh:
+			// the producer goroutine ended (file / gz sources: nothing to watch): a panic is reported at once
+			doneCh, producerDone = nil, true
+			if p != nil {
+				return nil, fmt.Errorf("producer goroutine panicked (%d records received): %v", len(got), p)
 			}
+		case <-deadline:
 			ioBlocked(tmpFiles, "channel neither fed nor closed within the deadline", "received="+strconv.Itoa(len(got)))
 		}
+	}
+	select {
+	case rs := <-otherGot:
+		if !c13SameRecs(rs, c13OtherWant) {
+			return nil, fmt.Errorf("a ParseConcurrent running at the same time on another text delivered wrong records (%d records)", len(rs))
+		}
+	case <-time.After(ioDeadline(20000)):
+		ioBlocked(tmpFiles, "a second ParseConcurrent running at the same time did not finish", "received="+strconv.Itoa(len(got)))
 	}
 	closedOnce := true
 	select {
@@ -424,13 +515,15 @@ recvLoop:
 	case <-time.After(2 * time.Second):
 		closedOnce = false
 	}
-	select {
-	case p := <-done:
-		if p != nil {
-			closedOnce = false // the producer panicked: send on / close of a closed channel
+	if !producerDone {
+		select {
+		case p := <-done:
+			if p != nil {
+				closedOnce = false // the producer panicked: send on / close of a closed channel
+			}
+		case <-time.After(5 * time.Second):
+			closedOnce = false // the producer did not return after closing
 		}
-	case <-time.After(5 * time.Second):
-		closedOnce = false // the producer did not return after closing
 	}
 	flag := "0"
 	if closedOnce {
